@@ -173,7 +173,7 @@ func oracleC09(cx *CheckCtx, runs []*CaseRun) []Finding {
 			ref := runs[i].Real
 			for k := range ref {
 				if k >= len(r.obs) || r.obs[k].Class != ref[k].Class || r.obs[k].Out != ref[k].Out {
-					if hasMultiDictQual(runs[i].Case) || hasEqualKeyTexts(runs[i].Case) {
+					if dictRegistersInMapOrder(runs[i].Case) || hasEqualKeyTexts(runs[i].Case) {
 						break
 					}
 					got := ""
